@@ -553,9 +553,14 @@ fn minimize_cmd(args: &[String]) -> i32 {
         }
     };
     let rule = first.rule.clone();
+    // every candidate runs on a thread of its own: what an earlier candidate left in
+    // thread-local storage must not keep a shrunk case failing (round 11)
     let mut runner = |c: &Case| {
-        let mut s = Stats::default();
-        let r = run_case(c, &mut s);
+        let c2 = c.clone();
+        let r = exec::on_fresh_thread(Default::default(), move || {
+            let mut s = Stats::default();
+            run_case(&c2, &mut s)
+        });
         if r.invalid {
             None
         } else {
@@ -569,7 +574,13 @@ fn minimize_cmd(args: &[String]) -> i32 {
     };
     let small = m.minimize(&case, &rule);
     let used = m.used;
-    let v = run_case(&small, &mut stats).violation.expect("minimised case fails");
+    let small2 = small.clone();
+    let v = exec::on_fresh_thread(Default::default(), move || {
+        let mut s = Stats::default();
+        run_case(&small2, &mut s)
+    })
+    .violation
+    .expect("minimised case fails");
     std::fs::write(outp, driver::replay_file(&small, &v, Some(used)).pretty()).expect("write");
     println!("minimised with {} executions, rule {}", used, v.rule);
     0
